@@ -619,9 +619,12 @@ class GPT:
         for part in self.parts:
             tmplist.append(part.record())
         part_data = b''.join(tmplist)
+        # The CRC in the header covers the whole partition entry array,
+        # including the unused entries.
+        part_data_crc = crc32(part_data + b'\x00' * (self.header.num_parts - len(self.parts)) * 128)
 
         if self.is_primary:
-            outlist = [self.header.record(crc32(part_data))]
+            outlist = [self.header.record(part_data_crc)]
             if self.apm_parts:
                 outlist.append(b'\x00' * 1024)
             for apm_part in self.apm_parts:
@@ -635,7 +638,7 @@ class GPT:
             outlist = [part_data]
             # Write out all of the "empty" partitions.
             outlist.append(b'\x00' * (self.header.num_parts - len(self.parts)) * 128)
-            outlist.append(self.header.record(crc32(part_data)))
+            outlist.append(self.header.record(part_data_crc))
 
         return b''.join(outlist)
 
